@@ -57,7 +57,18 @@ Ltac res_canc := match goal with |- context [cl_cancelled ?s0] =>
 Ltac v_finish2 :=
   match goal with |- context [c_finish_obj ?s ?g] =>
     val (c_finish_obj s g) ltac:(unfold c_finish_obj; res_objs; bi; unfold c_disarm; pk; rewrite ?N.eqb_refl; pk) end.
-Ltac ccomplete2 := unfold complete; v_finish2; bi; res_canc; bi; pk; unfold ret; pk; res_canc; bi.
+(* complete, by value (the surrounding cl_step duplicates the state it returns) *)
+Ltac v_complete :=
+  match goal with |- context [complete ?cfg ?s ?g ?t ?r ?b] =>
+    val (complete cfg s g t r b) ltac:(unfold complete; v_finish2; bi; res_canc; bi; pk; unfold ret; pk) end.
+(* the shell of cl_step around a datagram pack p from the gateway; handle_packet by value (tac
+   evaluates its body), then the end of cl_step *)
+Ltac cgw_shell p Hwf := unfold cl_step; bi; pk; rw; bi; rewrite (read_pack_roundtrip p) by Hwf; bi.
+Ltac v_handle tac :=
+  match goal with |- context [handle_packet ?cfg ?s ?p] =>
+    val (handle_packet cfg s p) ltac:(unfold handle_packet; bi; tac) end.
+Ltac cgw_end := bi; res_canc; bi.
+Ltac by_id := unfold c_get_id, c_get_type; pk; nl; bi; pk; nl; bi; pk.
 
 (* Subscribe on a short topic name: SUBSCRIBE out, SUBACK in, the call returns nil and the
    handler is stored under the topic's route (replacing a handler stored under the same key) *)
@@ -73,9 +84,9 @@ Proof.
   eexists. eexists. split; [|split; [|split]].
   - ccall. rewrite (short_len_nz topic Hs), Hs. bi. unfold call_simple, c_next_mid. pk.
     v_start_retry ltac:(apply wf_sub_short; [assumption|assumption|assumption|lia]). bi. pk. rw. reflexivity.
-  - cgw (Suback qg 0 (cl_next_mid c) RC_ACCEPTED) ltac:(apply wf_suback; [assumption|lia]).
-    unfold topic_name_of. pk. rewrite (decode_encode_short topic Hs Hw). bi.
-    ccomplete2. reflexivity.
+  - cgw_shell (Suback qg 0 (cl_next_mid c) RC_ACCEPTED) ltac:(apply wf_suback; [assumption|lia]).
+    v_handle ltac:(by_id; unfold topic_name_of; pk; rewrite (decode_encode_short topic Hs Hw); bi; v_complete).
+    cgw_end. reflexivity.
   - cl_quiet HQ. apply next_mid_range, Hmid.
   - pk. repeat split.
 Qed.
@@ -95,10 +106,11 @@ Lemma cl_bpub0 cfg c dup retain topic mid payload :
     ClQuiet c' /\ cl_frame c c' /\ cl_next_mid c' = cl_next_mid c.
 Proof.
   intros HQ Hs Hw Hm Hp. eexists. split; [|split; [|split]].
-  - cgw (Publish dup 0 retain TIT_SHORT (encode_short topic) mid payload)
+  - cgw_shell (Publish dup 0 retain TIT_SHORT (encode_short topic) mid payload)
       ltac:(apply wf_pub_short; [lia|assumption|assumption|assumption|assumption]).
-    unfold topic_for_publish. pk. rewrite (decode_encode_short topic Hs Hw). bi.
-    res_canc. bi. unfold dispatch. pk. reflexivity.
+    v_handle ltac:(pk; unfold topic_for_publish; pk; rewrite (decode_encode_short topic Hs Hw); bi;
+                   unfold dispatch; pk).
+    cgw_end. reflexivity.
   - cl_quiet HQ.
   - repeat split.
   - reflexivity.
@@ -113,14 +125,290 @@ Lemma cl_bpub1 cfg c dup retain topic mid payload :
     ClQuiet c' /\ cl_frame c c' /\ cl_next_mid c' = cl_next_mid c.
 Proof.
   intros HQ Hs Hw Hm Hp. eexists. split; [|split; [|split]].
-  - cgw (Publish dup 1 retain TIT_SHORT (encode_short topic) mid payload)
+  - cgw_shell (Publish dup 1 retain TIT_SHORT (encode_short topic) mid payload)
       ltac:(apply wf_pub_short; [lia|assumption|assumption|assumption|assumption]).
-    match goal with |- context [c_send ?s ?p] =>
-      val (c_send s p) ltac:(unfold c_send; pk; rw; bi;
-                             rewrite (pack_fits p) by (apply wf_puback_short; assumption); bi; pk) end.
-    bi. unfold topic_for_publish. pk. rewrite (decode_encode_short topic Hs Hw). bi.
-    res_canc. bi. unfold dispatch. pk. reflexivity.
+    v_handle ltac:(pk;
+      match goal with |- context [c_send ?s ?p] =>
+        val (c_send s p) ltac:(unfold c_send; pk; rw; bi;
+                               rewrite (pack_fits p) by (apply wf_puback_short; assumption); bi; pk) end;
+      bi; unfold topic_for_publish; pk; rewrite (decode_encode_short topic Hs Hw); bi; unfold dispatch; pk).
+    cgw_end. reflexivity.
   - cl_quiet HQ.
   - repeat split.
   - reflexivity.
+Qed.
+
+(* ------------------------------------------------------------------ the gateway session *)
+
+Lemma sn_send_active s p : gw_st s = Active -> wf_pkt p = true ->
+  sn_send s p = (s, [OutSn (gw_now s) (pack p)], HOk).
+Proof. unfold sn_send, sn_send_owned, ok. intros -> Hw. rewrite (pack_fits p Hw). reflexivity. Qed.
+
+(* SUBSCRIBE (short topic name): MQTT SUBSCRIBE to the broker; the broker's SUBACK (one granted QoS)
+   is answered with SUBACK (that QoS, topic ID 0, accepted) *)
+Lemma gw_sub cfg g topic q mid :
+  GwQuiet g -> is_short_topic topic = true -> wf_bytes topic -> q <= 2 -> 1 <= mid < 65536 ->
+  exists g1 g', gw_step cfg g (EvSn (pack (Subscribe false q TIT_SHORT mid (encode_short topic) []))) =
+             (g1, [OutMq (gw_now g) (MqSubscribe mid false [(topic, q)])]) /\
+    gw_step cfg g1 (EvMq (MqSuback mid [q])) = (g', [OutSn (gw_now g) (pack (Suback q 0 mid RC_ACCEPTED))]) /\
+    GwQuiet g' /\ gw_frame g g' /\ gw_now g1 = gw_now g.
+Proof.
+  intros HG Hs Hw Hq Hm.
+  assert (Hq2 : (2 <? q) = false) by (apply N.ltb_ge; lia).
+  assert (Hm0 : (mid =? 0) = false) by (apply N.eqb_neq; lia).
+  assert (Hqle : (q <=? 2) = true) by (apply N.leb_le; lia).
+  eexists. eexists. split; [|split; [|split]].
+  - gsn (Subscribe false q TIT_SHORT mid (encode_short topic) [])
+      ltac:(apply wf_sub_short; [lia|assumption|assumption|lia]).
+    unfold handle_subscribe. bi. rewrite Hq2, Hm0. gk. rewrite (decode_encode_short topic Hs Hw).
+    unfold new_obj, arm, mq_send, ok, finish_r. gk. rwg. reflexivity.
+  - gmq. unfold get_by_id. gk. nl. bi. gk. nl. bi. gk. v_gfinish. rewrite Hqle. bi.
+    match goal with |- context [gw_registered ?s0 !! 0] =>
+      let E := fresh "E" in assert (E : gw_registered s0 = gw_registered g) by reflexivity; rewrite E; clear E end.
+    match goal with |- context [sn_send ?s ?p] =>
+      rewrite (sn_send_active s p) by
+        first [ apply wf_suback; lia
+              | destruct (gw_registered g !! 0); unfold note_handed; gk; apply (gq_st _ HG) ] end.
+    unfold finish_r. bi.
+    match goal with |- context [gw_now ?s0] =>
+      let E := fresh "E" in assert (E : gw_now s0 = gw_now g) by (destruct (gw_registered g !! 0); reflexivity);
+      rewrite E; clear E end.
+    reflexivity.
+  - destruct (gw_registered g !! 0); unfold note_handed; gw_quiet HG.
+  - split; [|reflexivity]. destruct (gw_registered g !! 0); repeat split.
+Qed.
+
+(* a PUBLISH of the broker on a short topic name, QoS 0: forwarded to the client as it is *)
+Lemma gw_bpub0 cfg g dup retain topic mid payload :
+  GwQuiet g -> is_short_topic topic = true -> wf_bytes topic -> mid < 65536 -> okb payload = true ->
+  exists g', gw_step cfg g (EvMq (MqPublish dup 0 retain topic mid payload)) =
+             (g', [OutSn (gw_now g) (pack (Publish dup 0 retain TIT_SHORT (encode_short topic) mid payload))]) /\
+    GwQuiet g' /\ gw_frame g g'.
+Proof.
+  intros HG Hs Hw Hm Hp. eexists. split; [|split].
+  - gmq. unfold handle_broker_publish. rewrite Hs. bi. gk.
+    v_sn_send ltac:(apply wf_pub_short; [lia|assumption|assumption|assumption|assumption]).
+    unfold finish_r. gk. reflexivity.
+  - gw_quiet HG.
+  - repeat split.
+Qed.
+
+(* ... QoS 1: forwarded; the client's PUBACK is forwarded to the broker *)
+Lemma gw_bpub1 cfg g dup retain topic mid payload :
+  GwQuiet g -> is_short_topic topic = true -> wf_bytes topic -> 1 <= mid < 65536 -> okb payload = true ->
+  exists g1 g', gw_step cfg g (EvMq (MqPublish dup 1 retain topic mid payload)) =
+             (g1, [OutSn (gw_now g) (pack (Publish dup 1 retain TIT_SHORT (encode_short topic) mid payload))]) /\
+    gw_step cfg g1 (EvSn (pack (Puback (encode_short topic) mid RC_ACCEPTED))) = (g', [OutMq (gw_now g) (MqPuback mid)]) /\
+    GwQuiet g' /\ gw_frame g g' /\ gw_now g1 = gw_now g.
+Proof.
+  intros HG Hs Hw Hm Hp. eexists. eexists. split; [|split; [|split]].
+  - gmq. unfold handle_broker_publish. rewrite Hs. bi. gk. change (2 <? 1) with false. bi.
+    unfold new_obj. bi. unfold bp_proceed, set_obj, disarm_obj, arm. gk. rwg. gk.
+    rewrite (insert_insert (M:=Nmap)).
+    match goal with |- context [sn_send_owned ?s ?o ?p] =>
+      val (sn_send_owned s o p) ltac:(unfold sn_send_owned; gk; rwg; bi;
+        rewrite (pack_fits p) by (apply wf_pub_short; [lia|assumption|assumption|lia|assumption]); unfold ok; gk) end.
+    unfold finish_r. gk. reflexivity.
+  - gsn (Puback (encode_short topic) mid RC_ACCEPTED) ltac:(apply wf_puback_short; [assumption|assumption|lia]).
+    unfold get_by_id. gk. nl. bi. gk. nl. bi. gk.
+    unfold bp_proceed, set_obj, disarm_obj, arm. gk. unfold mq_send, mq_ack, andthen, ok. bi. gk.
+    rewrite N.eqb_refl. gk. rewrite (insert_insert (M:=Nmap)).
+    v_gfinish. unfold finish_r. gk. reflexivity.
+  - gw_quiet HG.
+  - split; [repeat split|reflexivity].
+Qed.
+
+(* ------------------------------------------------------------------ filters without wildcard characters *)
+
+(* A filter without '+' and '#' bytes matches exactly one topic name: itself. *)
+Lemma plain_not_hash l : has_wildcard l = false -> beq l HASH = false.
+Proof.
+  intros H. destruct (beq l HASH) eqn:E; [|reflexivity]. apply beq_true in E. subst l. discriminate H.
+Qed.
+Lemma plain_not_plus l : has_wildcard l = false -> beq l PLUS = false.
+Proof.
+  intros H. destruct (beq l PLUS) eqn:E; [|reflexivity]. apply beq_true in E. subst l. discriminate H.
+Qed.
+
+Lemma has_wildcard_app a b : has_wildcard (a ++ b) = has_wildcard a || has_wildcard b.
+Proof. unfold has_wildcard. apply existsb_app. Qed.
+
+Lemma split_slash_plain t : forall cur, has_wildcard cur = false -> has_wildcard t = false ->
+  Forall (fun l => has_wildcard l = false) (split_slash t cur).
+Proof.
+  induction t as [|b rest IH]; intros cur Hc Ht; cbn [split_slash].
+  - constructor; [exact Hc|constructor].
+  - change (has_wildcard (b :: rest)) with (((b =? 43) || (b =? 35)) || has_wildcard rest) in Ht.
+    apply orb_false_iff in Ht. destruct Ht as [Hb Hr].
+    destruct (b =? SLASH).
+    + constructor; [exact Hc|]. apply IH; [reflexivity|exact Hr].
+    + apply IH; [|exact Hr]. rewrite has_wildcard_app, Hc.
+      change (has_wildcard [b]) with (((b =? 43) || (b =? 35)) || false). rewrite Hb. reflexivity.
+Qed.
+
+Lemma split_plain t : has_wildcard t = false -> Forall (fun l => has_wildcard l = false) (split t).
+Proof. intros H. unfold split. apply split_slash_plain; [reflexivity|exact H]. Qed.
+
+Lemma match_route_refl r : match_route r r = true.
+Proof.
+  induction r as [|a r IH]; cbn [match_route]; [reflexivity|].
+  destruct (beq a HASH); [reflexivity|]. rewrite (beq_refl a), orb_true_r. exact IH.
+Qed.
+
+Lemma match_route_plain r : forall t, Forall (fun l => has_wildcard l = false) r -> match_route r t = true -> r = t.
+Proof.
+  induction r as [|a r IH]; intros t Hr Hm.
+  - destruct t; [reflexivity|discriminate Hm].
+  - inversion Hr as [|? ? Ha Hr']; subst.
+    pose proof (plain_not_hash a Ha) as Hh. pose proof (plain_not_plus a Ha) as Hp.
+    destruct t as [|b t]; cbn [match_route] in Hm.
+    + rewrite Hh in Hm. discriminate Hm.
+    + rewrite Hh, Hp in Hm. cbn [orb] in Hm. destruct (beq a b) eqn:Eab; [|discriminate Hm].
+      apply beq_true in Eab. subst b. f_equal. apply IH; assumption.
+Qed.
+
+(* the routing relation between a wildcard-free filter and a topic name is equality *)
+Lemma match_plain f t : has_wildcard f = false -> match_route (split f) (split t) = beq f t.
+Proof.
+  intros Hf. destruct (beq f t) eqn:E.
+  - apply beq_true in E. subst t. apply match_route_refl.
+  - destruct (match_route (split f) (split t)) eqn:Em; [|reflexivity].
+    apply match_route_plain in Em; [|apply split_plain, Hf].
+    apply beq_false in E. exfalso. apply E. rewrite <- (join_split f), <- (join_split t), Em. reflexivity.
+Qed.
+
+(* ------------------------------------------------------------------ subscriptions in place *)
+
+(* a subscription: topic filter, granted QoS, id of the handler (the Subscribe call that installed it) *)
+Definition subn : Type := bytes * N * N.
+Definition sub_topic (s : subn) : bytes := fst (fst s).
+Definition sub_qos (s : subn) : N := snd (fst s).
+Definition sub_id (s : subn) : N := snd s.
+
+(* the broker's subscription table and the client's handler table they correspond to *)
+Definition bsubs_of (subs : list subn) : list (bytes * N) := map (fun s => (sub_topic s, sub_qos s)) subs.
+Definition handlers_of (subs : list subn) : table :=
+  map (fun s => (sub_topic s, (split (sub_topic s), sub_id s))) subs.
+
+(* 2-byte topic, well-formed bytes, no wildcard character *)
+Definition topic_ok (t : bytes) : bool := is_short_topic t && wf_bytesb t && negb (has_wildcard t).
+Lemma topic_ok_spec t : topic_ok t = true -> is_short_topic t = true /\ wf_bytes t /\ has_wildcard t = false.
+Proof.
+  unfold topic_ok. intros H. apply andb_true_iff in H. destruct H as [H H3]. apply andb_true_iff in H. destruct H as [H1 H2].
+  split; [exact H1|]. split; [apply wf_bytesb_spec, H2|apply negb_true_iff, H3].
+Qed.
+
+Fixpoint sub_lookup (subs : list subn) (t : bytes) : option subn :=
+  match subs with
+  | [] => None
+  | s :: r => if beq (sub_topic s) t then Some s else sub_lookup r t
+  end.
+
+Lemma sub_lookup_some subs t s : sub_lookup subs t = Some s -> In s subs /\ sub_topic s = t.
+Proof.
+  induction subs as [|s0 r IH]; cbn [sub_lookup]; [discriminate|].
+  destruct (beq (sub_topic s0) t) eqn:E.
+  - intros H. injection H as <-. split; [left; reflexivity|apply beq_true, E].
+  - intros H. destruct (IH H) as [Hin Ht]. split; [right; exact Hin|exact Ht].
+Qed.
+
+Lemma sub_lookup_none subs t : sub_lookup subs t = None -> ~ In t (map sub_topic subs).
+Proof.
+  induction subs as [|s0 r IH]; cbn [sub_lookup map]; [intros _ []|].
+  destruct (beq (sub_topic s0) t) eqn:E; [discriminate|].
+  intros H [Heq|Hin]; [|exact (IH H Hin)]. apply beq_false in E. exact (E Heq).
+Qed.
+
+(* all filters are short wildcard-free topic names, pairwise distinct *)
+Fixpoint distinct (l : list bytes) : Prop :=
+  match l with [] => True | x :: r => ~ In x r /\ distinct r end.
+
+Lemma distinct_snoc l x : distinct l -> ~ In x l -> distinct (l ++ [x]).
+Proof.
+  induction l as [|a l IH]; cbn [distinct app]; intros Hd Hx.
+  - split; [intros []|exact I].
+  - destruct Hd as [Ha Hd]. split.
+    + intros Hin. apply in_app_or in Hin. destruct Hin as [Hin|[Heq|[]]]; [exact (Ha Hin)|].
+      apply Hx. left. symmetry. exact Heq.
+    + apply IH; [exact Hd|]. intros Hin. apply Hx. right. exact Hin.
+Qed.
+
+Definition subs_ok (subs : list subn) : Prop :=
+  Forall (fun s => topic_ok (sub_topic s) = true) subs /\ distinct (map sub_topic subs).
+
+Lemma subs_ok_nil : subs_ok [].
+Proof. split; [constructor|exact I]. Qed.
+
+Lemma subs_ok_snoc subs s : subs_ok subs -> topic_ok (sub_topic s) = true -> ~ In (sub_topic s) (map sub_topic subs) ->
+  subs_ok (subs ++ [s]).
+Proof.
+  intros [Hf Hn] Hs Hnin. split.
+  - apply Forall_app. split; [exact Hf|constructor; [exact Hs|constructor]].
+  - rewrite map_app. cbn [map]. apply distinct_snoc; assumption.
+Qed.
+
+(* the broker's table: a new filter is appended *)
+Lemma sub_set_fresh subs t q id : ~ In t (map sub_topic subs) ->
+  sub_set (t, q) (bsubs_of subs) = bsubs_of (subs ++ [(t, q, id)]).
+Proof.
+  intros Hnin. unfold sub_set.
+  assert (E : existsb (fun e => beq (fst e) (fst (t, q))) (bsubs_of subs) = false).
+  { cbn [fst]. induction subs as [|s r IH]; [reflexivity|]. cbn [bsubs_of map existsb fst].
+    cbn [map] in Hnin. apply orb_false_iff. split.
+    - apply beq_false. intros Heq. apply Hnin. left. exact Heq.
+    - apply IH. intros Hin. apply Hnin. right. exact Hin. }
+  rewrite E. unfold bsubs_of. rewrite map_app. reflexivity.
+Qed.
+
+(* the client's table: a handler under a new key is appended *)
+Lemma tbl_delete_fresh subs t : ~ In t (map sub_topic subs) -> tbl_delete (handlers_of subs) t = handlers_of subs.
+Proof.
+  induction subs as [|s r IH]; intros Hnin; [reflexivity|]. cbn [handlers_of map tbl_delete]. cbn [map] in Hnin.
+  assert (E : beq (sub_topic s) t = false) by (apply beq_false; intros Heq; apply Hnin; left; exact Heq).
+  rewrite E. f_equal. apply IH. intros Hin. apply Hnin. right. exact Hin.
+Qed.
+
+Lemma tbl_store_fresh subs t q id : ~ In t (map sub_topic subs) ->
+  tbl_store (handlers_of subs) (split t) id = handlers_of (subs ++ [(t, q, id)]).
+Proof.
+  intros Hnin. unfold tbl_store. rewrite (join_split t), (tbl_delete_fresh subs t Hnin).
+  unfold handlers_of. rewrite map_app. reflexivity.
+Qed.
+
+(* dispatch: exactly the handler of the subscription on that topic name *)
+Lemma handle_set_none subs t : Forall (fun s => topic_ok (sub_topic s) = true) subs -> ~ In t (map sub_topic subs) ->
+  handle_set (handlers_of subs) t = [].
+Proof.
+  induction subs as [|s r IH]; intros Hf Hnin; [reflexivity|].
+  inversion Hf as [|? ? Hs Hf']; subst. cbn [map] in Hnin.
+  unfold handle_set. cbn [handlers_of map flat_map fst snd].
+  destruct (topic_ok_spec _ Hs) as (_ & _ & Hpl). rewrite (match_plain _ t Hpl).
+  assert (E : beq (sub_topic s) t = false) by (apply beq_false; intros Heq; apply Hnin; left; exact Heq).
+  rewrite E. cbn [app]. apply IH; [exact Hf'|]. intros Hin. apply Hnin. right. exact Hin.
+Qed.
+
+Lemma handle_set_subs subs s : subs_ok subs -> In s subs -> handle_set (handlers_of subs) (sub_topic s) = [sub_id s].
+Proof.
+  intros [Hf Hn]. induction subs as [|s0 r IH]; intros Hin; [destruct Hin|].
+  inversion Hf as [|? ? Hs0 Hf']; subst. cbn [map distinct] in Hn. destruct Hn as [Hnin Hn'].
+  unfold handle_set. cbn [handlers_of map flat_map fst snd].
+  destruct (topic_ok_spec _ Hs0) as (_ & _ & Hpl). rewrite (match_plain _ (sub_topic s) Hpl).
+  destruct Hin as [Heq|Hin].
+  - subst s0. rewrite (beq_refl (sub_topic s)). cbn [app]. f_equal.
+    exact (handle_set_none r (sub_topic s) Hf' Hnin).
+  - assert (E : beq (sub_topic s0) (sub_topic s) = false).
+    { apply beq_false. intros Heq. apply Hnin. rewrite Heq. apply in_map. exact Hin. }
+    rewrite E. cbn [app]. apply IH; assumption.
+Qed.
+
+(* routing at the broker: a topic name nobody subscribed to matches nothing *)
+Lemma sub_matching_none subs t : Forall (fun s => topic_ok (sub_topic s) = true) subs -> ~ In t (map sub_topic subs) ->
+  sub_matching (bsubs_of subs) t = [].
+Proof.
+  induction subs as [|s r IH]; intros Hf Hnin; [reflexivity|].
+  inversion Hf as [|? ? Hs Hf']; subst. cbn [map] in Hnin.
+  unfold sub_matching. cbn [bsubs_of map List.filter fst].
+  destruct (topic_ok_spec _ Hs) as (_ & _ & Hpl). rewrite (match_plain _ t Hpl).
+  assert (E : beq (sub_topic s) t = false) by (apply beq_false; intros Heq; apply Hnin; left; exact Heq).
+  rewrite E. apply IH; [exact Hf'|]. intros Hin. apply Hnin. right. exact Hin.
 Qed.
